@@ -45,7 +45,7 @@ def select_harnesses(unit, prop, tier):
     for h in unit.harnesses:
         if prop is not None and prop not in h.props:
             continue
-        if tier == 'quick' and h.tier != 'quick':
+        if tier == 'quick' and h.tier_for(prop) != 'quick':
             continue
         hs.append(h)
     return hs
@@ -75,16 +75,23 @@ def run_kani_units(units, prop, tier, scratch, jobs, only=None):
                                         label=h.label, fn=h.fn, attempt=h.attempt))
             continue
         todo.append((u, hs))
-    # build once per (workdir, pkg)
+    # build once per (workdir, pkg); independent crates are built side by side
     built = {}
+    first = {}
     for u, hs in todo:
-        key = (preps[u.name]['workdir'], preps[u.name]['pkg'])
-        if key not in built:
-            log('[kani] building %s (%s)' % (u.crate, u.name))
-            ok, out, secs = K.build(u, preps[u.name], scratch)
+        first.setdefault((preps[u.name]['workdir'], preps[u.name]['pkg']), u)
+
+    def build_one(item):
+        key, u = item
+        log('[kani] building %s (%s)' % (u.crate, u.name))
+        ok, out, secs = K.build(u, preps[u.name], scratch)
+        log('[kani] build %s: %s in %.0fs' % (u.crate, 'ok' if ok else 'FAILED', secs))
+        return key, u, ok, out, secs
+
+    with cf.ThreadPoolExecutor(max_workers=max(1, min(4, jobs))) as ex:
+        for key, u, ok, out, secs in ex.map(build_one, list(first.items())):
             built[key] = (ok, out)
             info['build_s']['%s' % (u.crate,)] = round(secs, 1)
-            log('[kani] build %s: %s in %.0fs' % (u.crate, 'ok' if ok else 'FAILED', secs))
     work = []
     for u, hs in todo:
         key = (preps[u.name]['workdir'], preps[u.name]['pkg'])
@@ -110,7 +117,18 @@ def run_kani_units(units, prop, tier, scratch, jobs, only=None):
         return u, h, r
 
     with cf.ThreadPoolExecutor(max_workers=jobs) as ex:
-        for u, h, r in ex.map(one, work):
+        results = list(ex.map(one, work))
+    # a CBMC that died for lack of memory (or was killed) under full parallel load gets one more run with little
+    # company, so that machine load alone does not make a check come out UNDECIDED
+    again = [i for i, (u, h, r) in enumerate(results) if r['status'] in ('oom', 'tool-error')]
+    if again:
+        log('[kani] %d harness(es) ended for lack of resources; running them again, two at a time' % len(again))
+        with cf.ThreadPoolExecutor(max_workers=2) as ex:
+            for i, res in zip(again, ex.map(one, [work[i] for i in again])):
+                res[2]['retried'] = True
+                results[i] = res
+    if True:
+        for u, h, r in results:
             st = r['status']
             detail = {'failed_checks': r['failed_checks'], 'cbmc_properties': r['checks'], 'covers': r['covers'],
                       'wall_s': r['wall_s']}
@@ -380,8 +398,11 @@ def check_property(prop, tier, seed, jobs, keep=False, only_units=None, only_har
 
 def write_evidence(prop, spec, tier, seed, outcomes, vinfo, kinfo, wall, known_seen, kunits, vunits):
     os.makedirs(EVIDENCE_DIR, exist_ok=True)
-    counted = [o for o in outcomes if o.status in ('pass', 'fail', 'undecided', 'known') and not o.label.startswith('bounded')
+    # a reproduction of a LISTED known finding (status 'known') is not an obligation of this run: the obligations are
+    # stated on the complement of the listed findings' input sets and the reproductions are reported separately
+    counted = [o for o in outcomes if o.status in ('pass', 'fail', 'undecided') and not o.label.startswith('bounded')
                and not (o.status == 'undecided' and o.attempt)]
+    reproduced = [o for o in outcomes if o.status == 'known']
     discharged = [o for o in counted if o.status == 'pass']
     bounded = [o for o in outcomes if o.label.startswith('bounded')]
     fns = {}
@@ -449,6 +470,10 @@ def write_evidence(prop, spec, tier, seed, outcomes, vinfo, kinfo, wall, known_s
             'vacuity_canaries': canaries,
             'injected_file_sha256_before': kinfo.get('sha_before', {}),
             'known_findings_seen': known_seen,
+            'known_finding_reproductions': len(reproduced),
+            'known_finding_note': ('%d obligation(s) of this run are reproductions of findings listed in known_findings.json: they '
+                                   'fail as listed, are not counted under obligations/discharged, and the property is decided only '
+                                   'on the complement of their input sets' % len(reproduced)) if reproduced else '',
             'undecided': [dict(obligation=o.oblig, reason=o.reason, attempt=o.attempt) for o in outcomes if o.status == 'undecided'],
             'repo_head': repo_head(),
             'repo_dirty_files': repo_dirty()[:20],
